@@ -158,8 +158,13 @@ def r2_2(run):
            "and tolerance", run.where(cw, cw.node))
     # non-convergence of the Colebrook iteration raises
     cl = ix.func(DC + ".calc_lambda")
-    ok = any(isinstance(n, ast.If) and U(n.test) == "not converged" and any(isinstance(x, ast.Raise) for x in n.body)
-             for n in ast.walk(cl.node))
+    from ..arrnf import ANF, norm_cond
+    rcl = ANF(ix, cl).run()
+    cwc = [c_ for c_ in rcl.calls() if c_.fn[0] == "f" and c_.fn[1].endswith(".colebrook_white")]
+    ok = False
+    if len(cwc) == 1:
+        conv = ("proj", cwc[0].term, 0)
+        ok = any(any(norm_cond(c_, p_) == (conv, False) for c_, p_ in e.cond) for e in rcl.raises())
     run.ob("calc_lambda|colebrook-non-convergence-raises", ok, "calc_lambda raises when colebrook_white did not converge", w)
     run.floor(11)
 
